@@ -272,6 +272,69 @@ func main() {
 			e.Strs("indexFetchLoop", stmts, "processor.IndexFetch: the loop over the blocks, statements in source order")
 		}
 
+		// ---- support code the fetch relies on after a restart: bulks are written under one lock (docs and meta offsets
+		// in the same order, which Replay assumes), and the loader removes the leftovers of an interrupted sealing
+		if f, err := r.Load("frac/active_writer.go"); err != nil {
+			e.Missing("active_writer.go", err)
+		} else if fd := f.Func("ActiveWriter", "Write"); fd == nil {
+			e.Missing("activeWriterLocks", "ActiveWriter.Write not found")
+		} else {
+			var locks []string
+			ast.Inspect(fd.Body, func(n ast.Node) bool {
+				switch x := n.(type) {
+				case *ast.DeferStmt:
+					if t := f.Render(x); strings.Contains(t, "ock()") {
+						locks = append(locks, t)
+					}
+					return false
+				case *ast.ExprStmt:
+					if t := f.Render(x); strings.Contains(t, "Lock()") {
+						locks = append(locks, t)
+					}
+				}
+				return true
+			})
+			e.Strs("activeWriterLocks", locks, "ActiveWriter.Write: lock / unlock statements")
+		}
+		if f, err := r.Load("fracmanager/loader.go"); err != nil {
+			e.Missing("loader.go", err)
+		} else if fd := f.Func("loader", "load"); fd == nil {
+			e.Missing("loaderRemovals", "loader.load not found")
+		} else {
+			var rm []string
+			var walk func(n ast.Node, conds []string)
+			walk = func(n ast.Node, conds []string) {
+				ast.Inspect(n, func(x ast.Node) bool {
+					switch y := x.(type) {
+					case *ast.IfStmt:
+						c := append(append([]string{}, conds...), f.Render(y.Cond))
+						walk(y.Body, c)
+						if y.Else != nil {
+							walk(y.Else, append(append([]string{}, conds...), "!("+f.Render(y.Cond)+")"))
+						}
+						return false
+					case *ast.CaseClause:
+						var cs []string
+						for _, c := range y.List {
+							cs = append(cs, f.Render(c))
+						}
+						c := append(append([]string{}, conds...), "case "+strings.Join(cs, ", "))
+						for _, st := range y.Body {
+							walk(st, c)
+						}
+						return false
+					case *ast.CallExpr:
+						if f.Render(y.Fun) == "removeFile" {
+							rm = append(rm, strings.Join(conds, " && ")+": "+f.Render(y))
+						}
+					}
+					return true
+				})
+			}
+			walk(fd.Body, nil)
+			e.Strs("loaderRemovals", rm, "fracmanager.loader.load: every removeFile call with the conditions it sits under")
+		}
+
 		// ---- fracFetch recovers panics into an error (one fraction's panic fails the whole batch)
 		if f, err := r.Load("fracmanager/fetcher.go"); err != nil {
 			e.Missing("fetcher.go", err)
@@ -343,7 +406,7 @@ func main() {
 				e.Strs("fetchDocsCalls", calls, "Fetcher.FetchDocs: reversPos map, grouping, per-fraction fetch, result slice - call order")
 			}
 		}
-	}, "storeapi/docs_stream.go", "frac/sealed_index.go", "fracmanager/fetcher.go", "fracmanager/list.go", "frac/meta_data_collector.go", "frac/active.go", "frac/processor/fetch.go", "storeapi/grpc_fetch.go", "seq/doc_pos.go", "conf/conf.go", "consts/consts.go")
+	}, "storeapi/docs_stream.go", "frac/sealed_index.go", "fracmanager/fetcher.go", "fracmanager/list.go", "frac/meta_data_collector.go", "frac/active.go", "frac/active_writer.go", "fracmanager/loader.go", "frac/processor/fetch.go", "storeapi/grpc_fetch.go", "seq/doc_pos.go", "conf/conf.go", "consts/consts.go")
 }
 
 func renderBody(f *lib.File, b *ast.BlockStmt) string {
